@@ -52,9 +52,18 @@ func c07Back(p *profile.Profile, orig []*profile.Sample, a *c07Prof) []c07MSampl
 	return out
 }
 
+// samples in order, all-zero samples left out: whether ScaleN itself or only the later Merge removes
+// them is not part of the property
 func c07Seq(ss []c07MSample) string {
 	var ls []string
 	for _, s := range ss {
+		z := true
+		for _, v := range s.Vals {
+			z = z && v == 0
+		}
+		if z {
+			continue
+		}
 		ls = append(ls, fmt.Sprintf("%s|%v", s.Key.Stack, s.Vals))
 	}
 	return strings.Join(ls, ";")
@@ -293,11 +302,11 @@ func c07TProfsBack(ps []*profile.Profile, as []c07Prof) string {
 			u := c07Units[t.Unit]
 			ts = append(ts, fmt.Sprintf("%d/%d/%d", c07TypeID(t.Type), u.fam, u.factor))
 		}
-		var ss []string
+		var ms []c07MSample
 		for i, s := range p.Sample {
-			ss = append(ss, fmt.Sprintf("%s|%v", c07StackStr(as[k].Samples[min(i, len(as[k].Samples)-1)].Stack), s.Value))
+			ms = append(ms, c07MSample{Key: c07Key{Stack: c07StackStr(as[k].Samples[min(i, len(as[k].Samples)-1)].Stack)}, Vals: s.Value})
 		}
-		ls = append(ls, strings.Join(ts, ",")+"{"+strings.Join(ss, ";")+"}")
+		ls = append(ls, strings.Join(ts, ",")+"{"+c07Seq(ms)+"}")
 	}
 	return strings.Join(ls, " ")
 }
